@@ -131,6 +131,16 @@ def decode_case(cid: str, tmpl, x: list, with_objs: bool, rng: random.Random) ->
                             "v2": f64(float(Hardness(max_fes=24, n_runs=2).evaluate(y)))})
         rec["objs"].append({"name": "hardness-history", "v": f64(vb),
                             "v2": f64(float(Hardness(max_fes=24, n_runs=2).evaluate(yb)))})
+        # the executors may be handed over as any iterable (the parameter is declared Iterable): a one-shot iterator
+        # must not make the second evaluation differ from the first
+        from moptipyapps.binpacking2d.instgen.hardness import DEFAULT_EXECUTORS
+        hi = Hardness(max_fes=16, n_runs=1, executors=iter(DEFAULT_EXECUTORS))
+        v1 = float(hi.evaluate(y))
+        try:
+            v2 = float(hi.evaluate(y))
+        except (ZeroDivisionError, ValueError):
+            v2 = float("nan")
+        rec["objs"].append({"name": "hardness", "v": f64(v1), "v2": f64(v2), "executors": "one-shot iterator"})
         eh = EH(space, max_fes=16, n_runs=1)
         rec["objs"].append({"name": "errors-and-hardness", "v": f64(float(eh.evaluate(y))),
                             "v2": f64(float(eh.evaluate(y)))})
